@@ -71,7 +71,10 @@ def setattrStep (O : Oracles) (c : ClassOpts) (fields : List (String × FieldDec
           -- `Field.__set__` (reached after the field's own validation) refuses an immutable
           -- field that is already set
           if c.immFields.contains f && (lookup f s).isSome then (s, .err .valueErr)
-          else (assocSet f v' s, .ok)
+          -- the class's `__validate__` hook sees the new state; when it raises the assignment is
+          -- rolled back (the hooks of the correspondence suite raise ValueError)
+          else if O.hookOk (assocSet f v' s) then (assocSet f v' s, .ok)
+          else (s, .err .valueErr)
 
 /-- `Structure.__delitem__` -/
 def delitemStep (c : ClassOpts) (s : Attrs) (f : String) : Attrs × Outcome :=
